@@ -95,7 +95,7 @@ Variable cfg : timecfg.
 
 Record targ := mkArg { a_ty : ty; a_val : val }.
 Definition targ_ok sp (a : targ) : Prop :=
-  wt (a_ty a) (a_val a) = true /\ simple false (a_ty a) = true /\ ty_ok (a_ty a) = true /\ short (a_val a) = true /\ plain sp (a_ty a) /\ (depth (a_ty a) <= 2048)%nat.
+  wt (a_ty a) (a_val a) = true /\ simple false (a_ty a) = true /\ ty_ok (a_ty a) = true /\ plain sp (a_ty a) /\ empties (tag (a_ty a)) (a_ty a) /\ (depth (a_ty a) <= 2048)%nat.
 Definition targs_tags (l : list targ) : bytes := concat (map (fun a => tag (a_ty a)) l).
 Definition targs_bytes (l : list targ) : bytes := concat (map (fun a => enc (a_ty a) (a_val a)) l).
 Definition targs_texts (l : list targ) : list bytes := map (fun a => text_of ft (a_ty a) (a_val a)) l.
@@ -111,11 +111,11 @@ Proof.
     + rewrite ml_brace_end. destruct f; [cbn in Hl; lia|]. reflexivity.
     + destruct (N.eqb_spec d 125) as [->|Hd].
       * destruct args as [|[t v] args']; [discriminate|]. cbn [length] in Hc. injection Hc as Hc.
-        inversion Hok as [|? ? (Hwt & Hs & Hty & Hsh & Hpl & Hdp) Hok']; subst. cbn [a_ty a_val] in *.
+        inversion Hok as [|? ? (Hwt & Hs & Hty & Hpl & Hem & Hdp) Hok']; subst. cbn [a_ty a_val] in *.
         cbn [message_loop]. unfold targs_tags, targs_bytes, targs_texts. cbn [map concat a_ty a_val].
         rewrite (tag_pop_tag t _ Hty). rewrite (enc_is_documented v t Hwt).
         assert (Hnu : t <> TUnit) by (intros ->; discriminate Hs).
-        rewrite (visit_agrees_gen (tag t) true (print_struct cfg local tfmt cs) v t false Hwt Hs Hnu Hty Hsh Hpl 2048%nat _ Hdp).
+        rewrite (visit_agrees_gen (tag t) true (print_struct cfg local tfmt cs) v t false Hwt Hs Hnu Hty Hpl Hem 2048%nat _ Hdp).
         rewrite (tostring_value ft t v Hwt Hs).
         fold (targs_tags args') (targs_bytes args') (targs_texts args').
         rewrite (IH r' args') by (try assumption; cbn [length] in Hl; lia). reflexivity.
